@@ -442,3 +442,31 @@ Definition ip_ref (cidrs : list cidr) (a : addr) : Prop := exists c, In c cidrs 
 (* occurrence of a word at an offset, for the declarative reading of the xmpp sniff *)
 Definition occurs_at (s w : list byte) (i : nat) : Prop :=
   exists a b, s = a ++ w ++ b /\ length a = i.
+
+(* XMPP stream header (RFC 6120 4.7): optional XML declaration, "<stream:stream", attributes in any
+   order among which the default namespace jabber:client or jabber:server.  [xh_pre] is everything
+   before the default-namespace attribute, [xh_post] everything after it. *)
+Record xmpp_hdr := { xh_pre : list byte; xh_server : bool; xh_post : list byte }.
+Definition xmpp_encode (h : xmpp_hdr) : list byte :=
+  xh_pre h ++ unhex "20786d6c6e733d27" ++ unhex "6a6162626572" ++
+  (if xh_server h then unhex "3a73657276657227" else unhex "3a636c69656e7427") ++ xh_post h.
+
+(* ---- boolean forms of the references (what the engine's Go reference computes; proved equivalent
+   to the predicates above in proofs/MatchSmallProofs.v) ---- *)
+Definition socks4_ref_b (cfg : socks4_cfg) (m : socks4_msg) : bool :=
+  (bN (s4_vn m) =? 4)%N &&
+  existsb (N.eqb (bN (s4_cd m))) (s4_commands cfg) &&
+  (negb (nonempty (s4_ports cfg)) || existsb (N.eqb (s4_port m)) (s4_ports cfg)) &&
+  (negb (nonempty (s4_cidrs cfg)) ||
+   existsb (fun c => negb (c_is6 c) && (c_bits c <=? 32)%N &&
+                     (N.shiftr (s4_ip m) (32 - c_bits c) =? N.shiftr (c_addr c) (32 - c_bits c))%N) (s4_cidrs cfg)).
+
+Definition socks5_ref_b (auth : list N) (m : socks5_msg) : bool :=
+  (bN (s5_ver m) =? 5)%N && (1 <=? length (s5_methods m))%nat &&
+  forallb (fun x => existsb (N.eqb (bN x)) auth) (s5_methods m).
+
+Definition pg_ref_b (m : pg_msg) : bool :=
+  match m with
+  | PgSSLRequest => true
+  | PgStartup maj _ ps => (3 <=? maj)%N && nonempty ps
+  end.
